@@ -9,13 +9,19 @@ pub trait TreapItemSized {
     fn size(&self) -> usize;
 }
 
-static mut RNG: Rng = Rng::from_seed(42);
+thread_local! {
+    static RNG: std::cell::Cell<Rng> = std::cell::Cell::new(Rng::from_seed(42));
+}
 
 type Priority = u32;
 
-#[allow(static_mut_refs)]
 fn gen_priority() -> Priority {
-    unsafe { RNG.next_raw() as Priority }
+    RNG.with(|cell| {
+        let mut rng = cell.get();
+        let value = rng.next_raw();
+        cell.set(rng);
+        value as Priority
+    })
 }
 
 pub struct TreapNode<T> {
